@@ -47,6 +47,9 @@ def main():
                  kind_free_text="TLA+ model checker: design-level refinement checks, behaviour generation, trace validation"),
             dict(name="pmh-verif", path="/verif/harness", serves_properties=sorted(CHECKS),
                  kind_free_text="Rust conformance harness (path dependency on /repo, hooks enabled): replays TLC behaviours into the real code and records traces"),
+            dict(name="xapi", path="/verif/lib/xapi.py", serves_properties=[],
+                 kind_free_text="extra engine outside the listed properties (./check XAPI): TLA+ specification of the public API protocol (phases, ok/err/panic outcomes) "
+                                "checked with TLC and bound by trace validation of recorded call histories; reports DRIFT lines only, never a VIOLATION"),
         ],
         checks=[],
         not_applicable=[],
